@@ -19,6 +19,7 @@ from vlib.ref import classify as C
 from vlib.util import call
 
 PROPERTY_ID = "C20"
+OPTIMIZED = ['intents']   # clauses run a second time under `python -O` (assert statements stripped)
 RULE = ("structured intents: sub-command (five) + source value + optional passphrase/--testnet/--paranoia/--account/"
         "--interval/--file (path in a generated state), rendered to argv with permuted option order, --opt=value and "
         "unambiguous-prefix spellings; each intent is clean or carries one fault at a validator bound; main() runs in "
